@@ -150,6 +150,18 @@ class MyTuple(tuple):
     pass
 
 
+class FwdP:
+    """Target of the forward references Instance("props.vallib.FwdP") (class ids 6, 7)."""
+
+    def __repr__(self):
+        return "<FwdP>"
+
+
+class FwdQ(FwdP):
+    def __repr__(self):
+        return "<FwdQ>"
+
+
 def _proto_result(r):
     if r[0] == "exc":
         raise EXC[r[1]]("protocol method raises")
@@ -279,7 +291,8 @@ def dtype_code(dt):
 
 # user classes: cid -> (name, mro cids, adapts-to cids)
 CLASS_INFO = {0: ("O", [0], []), 1: ("O1", [1, 0], []), 2: ("P", [2], []), 3: ("Q", [3, 2], []),
-              4: ("R", [4], [2]), 5: ("A", [5, 0], []), 9: ("RtoP", [9], [])}
+              4: ("R", [4], [2]), 5: ("A", [5, 0], []), 6: ("FwdP", [6], []), 7: ("FwdQ", [7, 6], []),
+              9: ("RtoP", [9], [])}
 
 TY_NAMES = ["str", "int", "float", "complex", "bool", "bytes", "list", "tuple", "dict", "function",
             "method", "type", "NoneType", "module", "npbool", "object"]
@@ -332,7 +345,7 @@ def world():
             return "<A>"
 
     register_factory(RtoP, R, P)
-    w.classes = {0: O, 1: O1, 2: P, 3: Q, 4: R, 5: A, 9: RtoP}
+    w.classes = {0: O, 1: O1, 2: P, 3: Q, 4: R, 5: A, 6: FwdP, 7: FwdQ, 9: RtoP}
     w.cid_of = {O: 0, O1: 1, P: 2, Q: 3, R: 4, RtoP: 9}
     w.types = {"str": str, "int": int, "float": float, "complex": complex, "bool": bool, "bytes": bytes,
                "list": list, "tuple": tuple, "dict": dict, "function": types.FunctionType,
@@ -622,6 +635,9 @@ def _build_with(t, ctx, cls):
         return T.ValidatedTuple(*[_inner(x, ctx) for x in t[2:]], **kw)
     if h == "Instance":
         return (cls or T.Instance)(build_type(t[1], ctx), allow_none=t[2] == "1", adapt=ADAPT[int(t[3])])
+    if h == "InstanceF":
+        # a FORWARD REFERENCE: the class is named, looked up at the first validation that reaches it
+        return T.Instance(__name__ + ".FwdP", allow_none=t[1] == "1")
     if h == "Type":
         return T.Type(klass=build_type(t[1], ctx), allow_none=t[2] == "1")
     if h == "This":
@@ -1069,6 +1085,10 @@ def single_traits():
     out += ["(EnumH %s)" % e for e in ENUMS[:4]]
     out += ["(MapH %s)" % m for m in MAPS[:2]]
     out += ["(Union Int Str)", "(Union NoneT Float)", "(Union (Callable 0) Int)", "(Union (Tuple Int Int) (RangeI 0 2 0 0))"]
+    # numpy scalars against Bool / Int / Float / Complex alternatives INSIDE compounds (the coercing arm of
+    # validate_trait_complex is a separate copy of the code)
+    out += ["(Either 1 Bool)", "(Either 0 Bool Str)", "(Either 0 Str Bool)", "(Either 0 Int Str)", "(Either 0 Float Str)",
+            "(Either 0 Str Float Int)", "(CompoundH Bool Int)", "(Either 1 Complex)", "(Either 0 (Tuple Bool Int) Str)"]
     out += ["(Either 1 Int Str)", "(Either 0 Float Int)", "(Either 0 CInt Float)", "(Either 0 (Callable 0) Int)",
             "(Either 1 (RangeF 0 8 1 0) (Tuple Int Int))", "(Either 0 Int (RangeI 0 2 0 0) Str)",
             "(Either 0 (Enum (i 1) (i 2)) (Instance (u 2) 0 0 N))", "(CompoundH (CoerceH float) (EnumH (s a)))",
